@@ -108,13 +108,22 @@ func ruleLog1(c *Ctx, r *Reporter) {
 		return false
 	}
 	total := 0
-	for _, hname := range []string{"insert", "replace", "update", "delete"} {
-		fn := c.lookupSSA(pkgLungo, "Transaction."+hname)
-		if fn == nil {
-			r.bad("anchor:Transaction."+hname, "-", "helper not found")
+	helpers := loggingHelpers(c)
+	r.guard(len(helpers), 3, "logging helpers (unexported Transaction methods taking the oplog and the namespace clone)")
+	for _, fn := range helpers {
+		hname := fn.Name()
+		oplogP, _ := helperCollParams(c, fn)
+		var oplogParam ssa.Value = oplogP
+		var handleParam ssa.Value
+		for _, p := range fn.Params[1:] {
+			if isNamed(p.Type(), pkgLungo, "Handle") {
+				handleParam = p
+			}
+		}
+		if oplogParam == nil || handleParam == nil {
+			r.bad("Transaction."+hname+":shape", c.pos(fn.Pos()), "helper lacks an oplog or handle parameter")
 			continue
 		}
-		oplogParam, handleParam := fn.Params[2], fn.Params[1]
 		allInstrs(fn, func(in ssa.Instruction) {
 			call, ok := in.(*ssa.Call)
 			if !ok {
@@ -441,7 +450,10 @@ func firstBodyInstr(hdr ssa.Instruction) ssa.Instruction {
 }
 
 func ruleLog2(c *Ctx, r *Reporter) {
-	allowedHelpers := map[string]bool{"insert": true, "replace": true, "update": true, "delete": true, "append": true}
+	allowedHelpers := map[string]bool{"append": true}
+	for _, h := range loggingHelpers(c) {
+		allowedHelpers[h.Name()] = true
+	}
 	txnT := c.lookupType(pkgLungo, "Transaction")
 	n := 0
 	for _, fn := range c.repoFuncs() {
@@ -652,66 +664,143 @@ func init() {
 
 func ruleUps1(c *Ctx, r *Reporter) {
 	upsertF := c.lookupFunc(pkgMongokit, "Collection.Upsert")
+	if upsertF == nil {
+		r.bad("anchor:Collection.Upsert", "-", "not found")
+		return
+	}
 	n := 0
-	for _, hname := range []string{"replace", "update"} {
-		fn := c.lookupSSA(pkgLungo, "Transaction."+hname)
-		if fn == nil || upsertF == nil {
-			r.bad("anchor:Transaction."+hname, "-", "not found")
-			continue
-		}
+	// checkSite: the call `call` in fn (Collection.Upsert itself, or a helper that wraps it) must be
+	// guarded by len(res.Matched) == 0 on the result of the preceding Replace/Update and by the upsert flag.
+	// A function that contains no Replace/Update call is a wrapper: the obligation moves to its call sites.
+	var checkSite func(fn *ssa.Function, call *ssa.Call, depth int)
+	checkSite = func(fn *ssa.Function, call *ssa.Call, depth int) {
 		var primary *ssa.Call
 		allInstrs(fn, func(in ssa.Instruction) {
-			if call, ok := in.(*ssa.Call); ok {
-				if f := calleeObj(&call.Call); f != nil && f.Pkg() != nil && f.Pkg().Path() == pkgMongokit && (fullShort(f) == "Collection.Replace" || fullShort(f) == "Collection.Update") {
-					primary = call
+			if pc, ok := in.(*ssa.Call); ok {
+				if f := calleeObj(&pc.Call); f != nil && f.Pkg() != nil && f.Pkg().Path() == pkgMongokit && (fullShort(f) == "Collection.Replace" || fullShort(f) == "Collection.Update") {
+					primary = pc
 				}
 			}
 		})
+		key := funcName(fn) + ":upsert condition"
+		if primary == nil {
+			if depth >= 2 {
+				r.bad(key, c.pos(call.Pos()), "no preceding Replace/Update call within two wrapper levels")
+				return
+			}
+			found := 0
+			for _, g := range c.repoFuncs() {
+				if g.Pkg == nil || g.Pkg.Pkg.Path() != pkgLungo {
+					continue
+				}
+				allInstrs(g, func(in ssa.Instruction) {
+					if cc, ok := in.(*ssa.Call); ok && cc.Call.StaticCallee() == fn {
+						found++
+						checkSite(g, cc, depth+1)
+					}
+				})
+			}
+			if found == 0 {
+				r.bad(key, c.pos(call.Pos()), "Upsert is called from a function without a preceding Replace/Update and no static caller was found")
+			}
+			return
+		}
+		n++
 		var flag *ssa.Parameter
 		for _, p := range fn.Params {
 			if p.Name() == "upsert" {
 				flag = p
 			}
 		}
+		if flag == nil {
+			r.bad(key, c.pos(call.Pos()), "no upsert flag parameter")
+			return
+		}
+		matchedZero, flagSet := false, false
+		allInstrs(fn, func(x ssa.Instruction) {
+			iff, ok := x.(*ssa.If)
+			if !ok {
+				return
+			}
+			t := iff.Block().Succs[0]
+			domT := t == call.Block() || t.Dominates(call.Block())
+			if !domT {
+				return
+			}
+			if iff.Cond == ssa.Value(flag) {
+				flagSet = true
+			}
+			if bo, ok := iff.Cond.(*ssa.BinOp); ok && bo.Op == token.EQL {
+				if lc, ok := bo.X.(*ssa.Call); ok {
+					if b, ok := lc.Call.Value.(*ssa.Builtin); ok && b.Name() == "len" {
+						if k, ok := constInt(bo.Y); ok && k == 0 {
+							if okk, _ := resultFieldSource(lc.Call.Args[0], primary, "Matched"); okk {
+								matchedZero = true
+							}
+						}
+					}
+				}
+			}
+		})
+		r.check(matchedZero && flagSet, key, c.pos(call.Pos()), "Upsert is reached only under len(res.Matched) == 0 && upsert", "Upsert can run although a document matched (or without the upsert flag): a matched no-op write would insert a second document")
+	}
+	for _, fn := range c.repoFuncs() {
+		if fn.Pkg == nil || fn.Pkg.Pkg.Path() != pkgLungo {
+			continue
+		}
 		allInstrs(fn, func(in ssa.Instruction) {
 			call, ok := in.(*ssa.Call)
 			if !ok || calleeObj(&call.Call) != upsertF {
 				return
 			}
-			n++
-			key := "Transaction." + hname + ":upsert condition"
-			if primary == nil || flag == nil {
-				r.bad(key, c.pos(call.Pos()), "no preceding Replace/Update call or no upsert flag parameter")
-				return
-			}
-			matchedZero, flagSet := false, false
-			allInstrs(fn, func(x ssa.Instruction) {
-				iff, ok := x.(*ssa.If)
-				if !ok {
-					return
-				}
-				t := iff.Block().Succs[0]
-				domT := t == call.Block() || t.Dominates(call.Block())
-				if !domT {
-					return
-				}
-				if iff.Cond == ssa.Value(flag) {
-					flagSet = true
-				}
-				if bo, ok := iff.Cond.(*ssa.BinOp); ok && bo.Op == token.EQL {
-					if lc, ok := bo.X.(*ssa.Call); ok {
-						if b, ok := lc.Call.Value.(*ssa.Builtin); ok && b.Name() == "len" {
-							if k, ok := constInt(bo.Y); ok && k == 0 {
-								if okk, _ := resultFieldSource(lc.Call.Args[0], primary, "Matched"); okk {
-									matchedZero = true
-								}
-							}
-						}
-					}
-				}
-			})
-			r.check(matchedZero && flagSet, key, c.pos(call.Pos()), "Upsert is reached only under len(res.Matched) == 0 && upsert", "Upsert can run although a document matched (or without the upsert flag): a matched no-op write would insert a second document")
+			checkSite(fn, call, 0)
 		})
 	}
-	r.guard(n, 2, "Collection.Upsert calls in the Transaction helpers")
+	r.guard(n, 2, "guarded Collection.Upsert sites in package lungo")
+}
+
+// loggingHelpers: the unexported methods of *Transaction that receive both the oplog clone and the
+// namespace clone (two *mongokit.Collection parameters): insert/replace/update/delete today.
+func loggingHelpers(c *Ctx) []*ssa.Function {
+	txnT := c.lookupType(pkgLungo, "Transaction")
+	collT := c.lookupType(pkgMongokit, "Collection")
+	if txnT == nil || collT == nil {
+		return nil
+	}
+	var out []*ssa.Function
+	for i := 0; i < txnT.NumMethods(); i++ {
+		m := txnT.Method(i)
+		if m.Exported() {
+			continue
+		}
+		fn := c.ssaFunc(m)
+		if fn == nil {
+			continue
+		}
+		n := 0
+		for _, p := range fn.Params[1:] {
+			if derefNamed(p.Type()) == collT {
+				n++
+			}
+		}
+		if n >= 2 {
+			out = append(out, fn)
+		}
+	}
+	return out
+}
+
+// helperCollParams returns the (oplog, namespace) parameters of a logging helper, by position of the two collection parameters.
+func helperCollParams(c *Ctx, fn *ssa.Function) (oplog, namespace *ssa.Parameter) {
+	collT := c.lookupType(pkgMongokit, "Collection")
+	for _, p := range fn.Params[1:] {
+		if derefNamed(p.Type()) == collT {
+			if oplog == nil {
+				oplog = p
+			} else if namespace == nil {
+				namespace = p
+			}
+		}
+	}
+	return
 }
